@@ -610,7 +610,7 @@ Proof.
   { apply P.
     - split; [reflexivity | lia].
     - intros k1 p2 k2 [_ H1] [H2 H3]. split; auto. lia.
-    - intros n sz Hs bs'. unfold alloc. rewrite Hc.
+    - intros n sz Hs bs'. unfold alloc. rewrite Hc. cbn [capn].
       assert (N.min n k * sz <= k * max_sz (c_sz c)).
       { transitivity (k * sz). apply N.mul_le_mono_r. lia. apply N.mul_le_mono_l. exact Hs. }
       replace (isize_max <? N.min n k * sz) with false by (symmetry; apply N.ltb_ge; lia).
